@@ -330,6 +330,10 @@ func MustFinish(t ThreadID, label string) {
 func GhostAdd(p *int64, d int64) int64 { return atomic.AddInt64(p, d) }
 func GhostLoad(p *int64) int64         { return atomic.LoadInt64(p) }
 
+// YieldOn(p): scheduling point declaring that the code up to the next scheduling point touches the
+// harness monitor p (and no other monitor).
+func YieldOn(p any) { runtime.Gosched() }
+
 func Yield()                                             { runtime.Gosched() }
 func MutexHeld(m *sync.Mutex) bool                       { if m.TryLock() { m.Unlock(); return false }; return true }
 func RWMutexState(m *sync.RWMutex) (writer bool, readers int) {
